@@ -8,25 +8,35 @@ import itertools
 import numpy as np
 
 from ..common import V, samples_of, seed_offset
-from ..refmodels.dual import derivative
+from ..refmodels.dual import derivative_ref
 
 REL = 1e-12
 PCS = [(-72.2, 653.0), (-102.2, 648.5)]
 STDS = [(60, 14.7), (68.0, 14.696), (60.0, 15.025)]  # default and two other standard-condition bases
+# (plus, in eval_oil: the two arguments omitted, and given by keyword in the other order)
 
 
 def close(a, b, rel=REL):
+    if b is None:  # no reference available here (finite-difference fallback next to a kink): nothing is demanded
+        return True
     return abs(a - b) <= rel * max(abs(a), abs(b)) + 1e-300
+
+
+def derivative(f, x):
+    """(value, derivative, rel): exact dual-number derivative of the parent's own code (rel = REL) or, when the
+    parent's code cannot carry a dual number, a Richardson finite difference (rel = 1e-7; None next to a kink)."""
+    v, d, tol = derivative_ref(f, x)
+    return v, d, (REL if tol is None else tol)
 
 
 def eval_water(case):
     from bluebonnet.fluids import water  # noqa: PLC0415
 
     T, p = case["T"], case["p"]
-    _, d = derivative(lambda q: water.b_water_McCain(T, q), p)
+    _, d, rel = derivative(lambda q: water.b_water_McCain(T, q), p)
     got = float(water.b_water_McCain_dp(T, p))
     viol = []
-    if not close(got, d):
+    if not close(got, d, rel):
         viol.append(V("dBw/dp", f"b_water_McCain_dp({T}, {p}) = {got!r}; exact derivative of b_water_McCain = {d!r}",
                       case=case, observed=got, expected=d, tol=REL))
     arr = np.array([p, 2 * p + 1.0])
@@ -38,7 +48,7 @@ def eval_water(case):
             viol.append(V("dBw/dp-input-modified", f"b_water_McCain_dp overwrote the caller's pressure array "
                           f"{keep.tolist()} -> {arr.tolist()}", case=case))
             break
-        if not (close(got_a[0], d) and close(got_a[1], d2)):
+        if not (close(got_a[0], d, rel) and close(got_a[1], d2, rel)):
             viol.append(V("dBw/dp-array", f"array form of b_water_McCain_dp (call {attempt}) differs from the exact "
                           "derivative", case=case))
             break
@@ -54,9 +64,9 @@ def eval_oil(case):
     # dBo/dRs at the bubble point, against its parent, over a GOR lattice
     for r in case["gors"]:
         evals += 1
-        _, d = derivative(lambda x: oil.b_o_bubblepoint_Standing(T, api, g, x), r)
+        _, d, rel = derivative(lambda x: oil.b_o_bubblepoint_Standing(T, api, g, x), r)
         got = float(oil.db_o_dgor_Standing(T, api, g, r))
-        if not close(got, d):
+        if not close(got, d, rel):
             viol.append(V("dBo/dRs", f"db_o_dgor_Standing(T={T}, api={api}, g={g}, R={r}) = {got!r}; exact derivative "
                           f"of b_o_bubblepoint_Standing = {d!r}", case=dict(case, R=r), observed=got, expected=d,
                           tol=REL))
@@ -67,40 +77,48 @@ def eval_oil(case):
         p = f * pb
         evals += 1
         c = dict(case, p=p, frac=f)
-        val, d = derivative(lambda q: oil.solution_gor_Standing(T, q, api, g, gor), p)
+        val, d, rel = derivative(lambda q: oil.solution_gor_Standing(T, q, api, g, gor), p)
         got = oil.dgor_dpressure_Standing(T, p, api, g, gor)
         if p >= pb:
-            if not (got == 0 and d == 0):
+            if not (got == 0 and d in (0, None)):
                 viol.append(V("dRs/dp-zero-above", f"at p = {f} p_b: dgor_dpressure = {got!r}, exact derivative of "
                               f"solution_gor_Standing = {d!r} (both must be 0)", case=c, observed=got, expected=0.0))
-        elif not close(float(got), d):
+        elif not close(float(got), d, rel):
             viol.append(V("dRs/dp", f"dgor_dpressure_Standing at p = {f} p_b = {got!r}; exact derivative of "
                           f"solution_gor_Standing = {d!r}", case=c, observed=float(got), expected=d, tol=REL))
         if f == 0.5:  # the same pressure given as an integer (Python int, np.int64): dtype must not leak in
             pi = int(p)
-            want = derivative(lambda q: oil.solution_gor_Standing(T, q, api, g, gor), float(pi))[1]
+            _, want, rel_i = derivative(lambda q: oil.solution_gor_Standing(T, q, api, g, gor), float(pi))
             for q in (pi, np.int64(pi)):
                 got_i = float(oil.dgor_dpressure_Standing(T, q, api, g, gor))
-                if not close(got_i, want):
+                if not close(got_i, want, rel_i):
                     viol.append(V("dRs/dp-integer-pressure", f"dgor_dpressure_Standing(p={q!r} as {type(q).__name__}) = "
                                   f"{got_i!r}; exact derivative of the parent {want!r}", case=dict(c, p=pi), observed=got_i,
                                   expected=want))
                     break
             wv = float(oil.db_o_dgor_Standing(int(T), int(api), g, int(gor)))
-            wd = derivative(lambda x: oil.b_o_bubblepoint_Standing(int(T), int(api), g, x), float(int(gor)))[1]
-            if not close(wv, wd):
+            _, wd, rel_w = derivative(lambda x: oil.b_o_bubblepoint_Standing(int(T), int(api), g, x), float(int(gor)))
+            if not close(wv, wd, rel_w):
                 viol.append(V("dBo/dRs-integer-arguments", f"db_o_dgor_Standing with integer arguments = {wv!r}; exact "
                               f"derivative {wd!r}", case=c))
-        for (tpc, ppc), (t_std, p_std) in itertools.product(PCS, STDS):
+        for (tpc, ppc), std in itertools.product(PCS, STDS + [None, "kw"]):
             evals += 1
-            co = float(oil.oil_compressibility_Standing(T, p, api, g, gor, tpc, ppc, t_std, p_std))
+            t_std, p_std = std if isinstance(std, tuple) else (std, None)
+            if t_std is None:  # the function's own default standard conditions against b_factor_DAK's own defaults
+                co = float(oil.oil_compressibility_Standing(T, p, api, g, gor, tpc, ppc))
+            elif t_std == "kw":
+                co = float(oil.oil_compressibility_Standing(T, p, api, g, gor, tpc, ppc, pressure_standard=15.025,
+                                                            temperature_standard=68.0))
+                t_std, p_std = 68.0, 15.025
+            else:
+                co = float(oil.oil_compressibility_Standing(T, p, api, g, gor, tpc, ppc, t_std, p_std))
             if p >= pb:
                 want = float(oil.oil_compressibility_undersat_Spivey(T, p, api, g, gor))
                 if not close(co, want, 1e-13):
                     viol.append(V("c_o/undersaturated", f"oil_compressibility_Standing at p = {f} p_b = {co!r}; "
                                   f"undersaturated correlation gives {want!r}", case=c, observed=co, expected=want))
             else:
-                bg = float(gas.b_factor_DAK(T, p, tpc, ppc, t_std, p_std))
+                bg = float(gas.b_factor_DAK(T, p, tpc, ppc) if t_std is None else gas.b_factor_DAK(T, p, tpc, ppc, t_std, p_std))
                 rs = float(oil.solution_gor_Standing(T, p, api, g, gor))
                 dbo = float(oil.db_o_dgor_Standing(T, api, g, rs))
                 drs = float(oil.dgor_dpressure_Standing(T, p, api, g, gor))
@@ -127,15 +145,15 @@ def eval_history(case):
         pb = float(oil.pressure_bubblepoint_Standing(T, api, g, gor))
         for p in case["pressures"]:
             n += 1
-            want = derivative(lambda q: oil.solution_gor_Standing(T, q, api, g, gor), p)[1]
+            _, want, rel_h = derivative(lambda q: oil.solution_gor_Standing(T, q, api, g, gor), p)
             got = float(oil.dgor_dpressure_Standing(T, p, api, g, gor))
-            if not close(got, want):
+            if not close(got, want, rel_h):
                 viol.append(V("dRs/dp-after-history", f"after the same fluid was evaluated at other temperatures, "
                               f"dgor_dpressure_Standing(T={T}, p={p}) = {got!r}; exact derivative {want!r} (p_b = {pb:.6g})",
                               case=case, observed=got, expected=want))
                 break
-            w2 = derivative(lambda q: water.b_water_McCain(T, q), p)[1]
-            if not close(float(water.b_water_McCain_dp(T, p)), w2):
+            _, w2, rel_w2 = derivative(lambda q: water.b_water_McCain(T, q), p)
+            if not close(float(water.b_water_McCain_dp(T, p)), w2, rel_w2):
                 viol.append(V("dBw/dp-after-history", f"b_water_McCain_dp(T={T}, p={p}) differs from the exact derivative "
                               "after other temperatures were evaluated", case=case))
                 break
@@ -152,7 +170,9 @@ def cases(tier, seed):
     off = seed_offset(seed)
     Tw = [60.0, 100.0, 200.0, 300.0, 400.0]
     pw = [14.7, 500.0, 2000.0, 5000.0, 10000.0]
-    To, apis, gs, gors = [80.0, 200.0, 350.0], [12.0, 35.0, 55.0], [0.56, 0.8, 1.3], [20.0, 650.0, 2500.0]
+    # the last entry of each axis is deliberately not a round number (1.25 T etc. must not be exactly representable
+    # in a narrower type); the seed moves them as well
+    To, apis, gs, gors = [80.0, 200.0, 350.0, 201.37], [12.0, 35.0, 55.0, 33.3], [0.56, 0.8, 1.3, 0.813], [20.0, 650.0, 2500.0]
     fr = [0.1, 0.5, 0.9, 1 - 1e-6, 1 - 1e-10, float(np.nextafter(1.0, 0)), 1.0, 1 + 1e-6, 1.5]
     if tier == "thorough":
         Tw += [80.0, 150.0, 250.0, 350.0]
@@ -167,6 +187,9 @@ def cases(tier, seed):
         pw.append(round(14.7 + 9000 * ((off * 3) % 1), 2))
         fr.append(round(0.05 + 0.9 * off, 5))
         gors.append(round(20 + 2400 * ((off * 7) % 1), 1))
+        To[-1] = round(80 + 270 * ((off * 11) % 1), 3)
+        apis[-1] = round(12 + 43 * ((off * 13) % 1), 3)
+        gs[-1] = round(0.56 + 0.74 * ((off * 17) % 1), 4)
     out = [{"kind": "water", "T": T, "p": p} for T, p in itertools.product(Tw, pw)]
     out += [{"kind": "oil", "T": T, "api": a, "g": g, "gor": r, "fractions": sorted(fr), "gors": [1.0, 20.0, 650.0, 2500.0]}
             for T, a, g, r in itertools.product(To, apis, gs, gors)]
